@@ -36,7 +36,8 @@ def check_database(ctx, path, tables, case):
 
 # boundary shapes every run must contain: exactly 60 fragmented bytes on a page (20 x 3), just below, a wide table
 FORCE = {"fragmenter": lambda i: [(20, 3), None, (19, 3), None, (21, 3), None, (40, 2), None][i % 8],
-         "wide_table": lambda i: [0, 0, 0, 300, 0, 0, 0, 150][i % 8]}
+         "wide_table": lambda i: [0, 0, 0, 300, 0, 0, 0, 150][i % 8],
+         "table_boundary": lambda i: i % 2 == 0}      # rows whose payload is exactly (u-35) + k(u-4), and around it
 
 
 def run(ctx, n_quick=48, n_thorough=600):
